@@ -14,6 +14,7 @@ RULE = ("random problems over the per-variable bound-pattern lattice {free, "
         "evaluation; distinct = (patterns, constraint kind, scale, step kinds "
         "seen)")
 RULE += ("  Also: finite boxes at the far end of the floating-point range (1e150..1.7e308, scale on/off), bounds of width exactly 2 and limits exactly 0, user functions returning int / float32 / list values.")
+RULE += (" Clauses B': the image of every trial point under the harness's own map lies in the user's box before projection, and the user functions are called at that image.")
 ASSUMPTIONS = [
     "sampled inputs, n <= 5; exact comparison at the user boundary",
     "pre-projection excess tolerance 64*eps*max(1,|x|,|bound|) at Problem.__call__ entry",
